@@ -137,7 +137,8 @@ func (g *genCtx) method(k int) {
 	switch guardKind {
 	case 0: // if idx < n { [killer] use }
 		cmp := []string{fmt.Sprintf("%s < %d", idx, arr.n), fmt.Sprintf("%s <= %d", idx, arr.n-1), fmt.Sprintf("%d > %s", arr.n, idx),
-			fmt.Sprintf("%s <= %d", idx, arr.n), fmt.Sprintf("%s < %d", idx, arr.n+1)}[tp.Pick(4, 3, 2, 1, 1)]
+			fmt.Sprintf("%s <= %d", idx, arr.n), fmt.Sprintf("%s < %d", idx, arr.n+1),
+			fmt.Sprintf("%d >= %s", arr.n-1, idx), fmt.Sprintf("%d >= %s", arr.n, idx)}[tp.Pick(4, 3, 2, 1, 1, 3, 1)]
 		body = append(body, fmt.Sprintf("if %s {", cmp))
 		for _, l := range append(killer, use...) {
 			body = append(body, "\t"+l)
